@@ -72,6 +72,9 @@ class Check:
         return self.ob(rule, instance, False, detail, loc, True, witness)
 
     def inconclusive(self, rule, instance, detail="", loc=""):
+        if "HISTORY:" in str(detail):
+            # the evaluated function keeps state between calls: its result is not a function of its inputs
+            return self.ob(rule, instance, False, str(detail).replace("HISTORY: ", ""), loc, True)
         return self.ob(rule, instance, None, detail, loc)
 
     def floor(self, name, measured, floor):
